@@ -16,7 +16,7 @@ package cmap
 // never share a channel (li_distinct) — so closing the channel of one key cannot wake waiters of another.
 //
 //@ func (shard).Set
-//@   requires s != nil
+//@   requires s != nil && s.m != nil
 //@   requires li_open: forall k K :: in(k, s.m) && s.m[k].Wait != nil ==> !isclosed(s.m[k].Wait) && allocated(s.m[k].Wait)
 //@   requires li_distinct: forall k1 K, k2 K :: in(k1, s.m) && in(k2, s.m) && s.m[k1].Wait != nil && k1 != k2 ==> s.m[k1].Wait != s.m[k2].Wait
 //@   ensures inserted [C15]: result == (!(old(in(key, s.m)) && old(s.m[key].Wait) == nil) || overwrite)
@@ -30,7 +30,7 @@ package cmap
 //@   ensures li_distinct [C15]: forall k1 K, k2 K :: in(k1, s.m) && in(k2, s.m) && s.m[k1].Wait != nil && k1 != k2 ==> s.m[k1].Wait != s.m[k2].Wait
 //
 //@ func (shard).LazySet
-//@   requires s != nil
+//@   requires s != nil && s.m != nil
 //@   requires li_open: forall k K :: in(k, s.m) && s.m[k].Wait != nil ==> !isclosed(s.m[k].Wait) && allocated(s.m[k].Wait)
 //@   requires li_distinct: forall k1 K, k2 K :: in(k1, s.m) && in(k2, s.m) && s.m[k1].Wait != nil && k1 != k2 ==> s.m[k1].Wait != s.m[k2].Wait
 //@   opt callbacks=pure
@@ -45,7 +45,7 @@ package cmap
 //@   ensures li_distinct [C15]: forall k1 K, k2 K :: in(k1, s.m) && in(k2, s.m) && s.m[k1].Wait != nil && k1 != k2 ==> s.m[k1].Wait != s.m[k2].Wait
 //
 //@ func (shard).Get
-//@   requires s != nil
+//@   requires s != nil && s.m != nil
 //@   requires li_open: forall k K :: in(k, s.m) && s.m[k].Wait != nil ==> !isclosed(s.m[k].Wait) && allocated(s.m[k].Wait)
 //@   requires li_distinct: forall k1 K, k2 K :: in(k1, s.m) && in(k2, s.m) && s.m[k1].Wait != nil && k1 != k2 ==> s.m[k1].Wait != s.m[k2].Wait
 //@   ensures found [C15]: old(in(key, s.m)) ==> val == old(s.m[key].Val) && wait == old(s.m[key].Wait) && !first && s.m[key] == old(s.m[key])
